@@ -84,33 +84,6 @@ func (w *verifCutWriter) Write(p []byte) (int, error) {
 
 var _ net.Error = nil
 
-// VerifFlushAttribution runs writeCoalescer.flush on buffers of the given lengths over a writer that
-// accepts `limit` bytes and then fails; it returns per buffer the reported n and whether err == nil.
-func VerifFlushAttribution(lens []int, limit int64) (ns []int, ok []bool) {
-	werr := errors.New("verif: cut")
-	wc := &writeCoalescer{c: &verifCutWriter{limit: limit, err: werr}}
-	bufs := make(net.Buffers, len(lens))
-	chans := make([]chan writeResult, len(lens))
-	rc := make([]chan<- writeResult, len(lens))
-	for i, l := range lens {
-		bufs[i] = make([]byte, l)
-		chans[i] = make(chan writeResult, 1)
-		rc[i] = chans[i]
-	}
-	wc.flush(rc, bufs)
-	for i := range lens {
-		select {
-		case r := <-chans[i]:
-			ns = append(ns, r.n)
-			ok = append(ok, r.err == nil)
-		default:
-			ns = append(ns, -1)
-			ok = append(ok, false)
-		}
-	}
-	return
-}
-
 // VerifWriteResult is what contextWriter.writeContext returned for one frame.
 type VerifWriteResult struct {
 	N   int
